@@ -173,11 +173,11 @@ def main():
                 if rc:
                     m["status"] = "novet"
                     continue
-                rc, out = sh(["go", "test"] + margs + ["-vet=off", "-count=1", own], cwd=moddir, timeout=420)
+                rc, out = sh(["go", "test"] + margs + ["-vet=off", "-count=1", own], cwd=moddir, timeout=200)
                 if rc == 0 and not goctl:
                     others = [p for p in pkgs if p != own]
                     if others:
-                        rc, out = sh(["go", "test", "-vet=off", "-count=1"] + others, cwd=moddir, timeout=600)
+                        rc, out = sh(["go", "test", "-vet=off", "-count=1"] + others, cwd=moddir, timeout=400)
                 m["status"] = "survived" if rc == 0 else ("timeout" if rc == 124 else "killed")
                 m["test_s"] = round(time.time() - t0, 1)
             finally:
